@@ -30,8 +30,13 @@ RESIDUAL_MODEL = 'R*(TrefA-TrefB)*(ql+qi)*grad(ln ps)'
 
 def profiles(K):
   k = np.arange(K)
-  return [np.full(K, 250.0), np.linspace(200.0, 300.0, K) if K > 1 else np.array([230.0]), 250.0 + 20.0 * (-1.0) ** k,
-          np.full(K, 288.0), np.linspace(290.0, 210.0, K) if K > 1 else np.array([301.0])]
+  out = [np.full(K, 250.0), np.linspace(200.0, 300.0, K) if K > 1 else np.array([230.0]), 250.0 + 20.0 * (-1.0) ** k,
+         np.full(K, 288.0), np.linspace(290.0, 210.0, K) if K > 1 else np.array([301.0])]
+  if K >= 3:
+    # isothermal "stratosphere" over a lapse-rate troposphere: non-constant, but two adjacent layers are equal
+    strat = np.concatenate([[216.65, 216.65], np.linspace(231.0, 288.0, K - 2)])
+    out.append(strat)
+  return out
 
 
 def tabs(K):
@@ -41,7 +46,7 @@ def tabs(K):
 def bounds(tier):
   return dict(classes=list(harness.PE_CLASSES), level_sets=[LEVELS[k] for k in ((1, 2, 3, 4) if tier == 'quick' else (1, 2, 3, 4, 5))],
               grids='cubic-dealiased M=7 (dry) / (7,8,36,18) (moist, cloud); real + padded fast layout',
-              orography=['none', 'degree-2'], tracer_sets=['minimal', 'plus two passive tracers'], reference_profiles=5,
+              orography=['none', 'degree-2'], tracer_sets=['minimal', 'plus two passive tracers'], reference_profiles='5 (+ an isothermal-stratosphere profile with two equal adjacent layers when K >= 3); every profile also through ONE re-used equation object whose reference_temperature field is rebound',
               state_lattice='depth 2, lmax=1 (depth 3 on one configuration%s)' % ('' if tier == 'quick' else ' per class'),
               top_wavenumber_states='depth-2 lattice over the lmax=1 alphabet + excitations of every field at l = L-2 (3 orders m, top and bottom level), moisture / tracer fields with signal at l = L-2; metamorphic oracle only')
 
@@ -152,12 +157,29 @@ def work(unit, rec):
     state = harness.pe_state(cls, coords, impl, st['vorticity'], st['divergence'], temp_var, st['lnps'], tracers=tracers,
                              sim_time=np.zeros(B) if cls != 'PrimitiveEquations' else 0.0)
     results.append(harness.pe_tendency_to_real(jax.vmap(harness.total_tendency_fn(eq))(state), shape, impl))
+  # the same through one long-lived equation object whose public reference_temperature field is rebound between
+  # evaluations (non-frozen dataclass): anything derived from the profile must follow it
+  import dataclasses
+  reused = harness.make_pe(cls, coords, profs[0], orog, specs, impl=impl)
+  rebind_ok = not getattr(type(reused), '__dataclass_params__', None) or not type(reused).__dataclass_params__.frozen
+  results_reused = []
+  if rebind_ok:
+    for tref in profs:
+      reused.reference_temperature = np.asarray(tref, dtype=np.float64)
+      temp_var = st['temperature'].copy(); temp_var[:, :, 0, 0] += harness.SQRT4PI * (T_abs - tref)
+      state = harness.pe_state(cls, coords, impl, st['vorticity'], st['divergence'], temp_var, st['lnps'], tracers=tracers,
+                               sim_time=np.zeros(B) if cls != 'PrimitiveEquations' else 0.0)
+      results_reused.append(harness.pe_tendency_to_real(jax.vmap(harness.total_tendency_fn(reused))(state), shape, impl))
   base = max(1.0, specs.g * np.abs(orog).max() * L * (L + 1), specs.R * 300.0 * L * (L + 1) * 0.05)
   scales = dict(vorticity=base, divergence=base, temperature=300.0, lnps=1.0)
   for b, ms in enumerate(msets):
     rec.case(('state', cfg_key, list(ms), pal), transitions=len(profs), outcome=results[0]['divergence'][b].tobytes() + results[0]['temperature'][b].tobytes(),
              sample={'class': cls, 'levels': bnds, 'impl': str(unit['impl']), 'orography': unit['orog'], 'tracers': names,
                      'excitations': [list(alphabet[e]) for e in ms], 'profiles': [list(p) for p in profs]} if b in (1, B - 1) else None)
+  for ip, (ra, rb) in enumerate(zip(results, results_reused)):
+    key = ('reused_object', cfg_key, ip, pal)
+    for f in ('vorticity', 'divergence', 'temperature', 'lnps'):
+      rec.exact(rb[f], ra[f], site='rebound_reference_profile_equals_fresh_object', key=key, sig={'equation': cls, 'field': f})
   # ---- metamorphic oracle: all pairs of reference profiles ------------------------------------
   cond = None
   if cloud:
